@@ -32,6 +32,7 @@ type scenario struct {
 	cancel bool // a canceller thread may cancel the caller's context at any point
 	hold   bool // replicas may withhold their answer until DoBatch has returned
 	pool   bool // custom Go spawner
+	spawn  string // with pool: "" = `go f()` of the caller's own; "inline" = f() run synchronously by the spawner; "fifo1" = one worker running the functions in hand-over order
 	big    bool // many hook points: explored with one preemption less
 	rf     int  // ReplicationFactor() reported by the ring (0 = largest replica set)
 	ninst  int  // InstancesCount() reported by the ring (0 = number of distinct replicas)
@@ -136,6 +137,22 @@ func scenarios() []scenario {
 	p.name += "+pool"
 	p.pool = true
 	out = append(out, p)
+	// spawners that run the functions one after the other, in the order they were handed over (a synchronous
+	// spawner; a pool whose single worker is free): every function handed over must be able to finish without
+	// one handed over later having run
+	for _, bi := range []int{0, 3, 5} {
+		for _, sp := range []string{"inline", "fifo1"} {
+			q := base[bi]
+			q.name += "+" + sp
+			q.pool, q.spawn = true, sp
+			out = append(out, q)
+			if sp == "fifo1" {
+				q.name += "+cancel"
+				q.cancel = true
+				out = append(out, q)
+			}
+		}
+	}
 	// small scenarios first, so that a deadline cuts the deepest ones only
 	sort.SliceStable(out, func(i, j int) bool { return !out[i].big && out[j].big })
 	return out
@@ -180,6 +197,7 @@ func runOne(t *testing.T, sc scenario, ch *sched.Chooser) (res sched.Result) {
 		defer cancel(nil)
 		released := false
 		callerReturned := false
+		cleanedUp := false
 		var retErr error
 		errsBy := map[string]error{}
 		keys := make([]uint32, len(sc.keys))
@@ -187,7 +205,9 @@ func runOne(t *testing.T, sc scenario, ch *sched.Chooser) (res sched.Result) {
 			keys[i] = uint32(i)
 		}
 		callback := func(in ring.InstanceDesc, idxs []int) error {
-			sched.SetName("r:" + in.Id)
+			if sc.spawn == "" {
+				sched.SetName("r:" + in.Id)
+			}
 			n := 3
 			if sc.hold {
 				n = 4
@@ -208,17 +228,40 @@ func runOne(t *testing.T, sc scenario, ch *sched.Chooser) (res sched.Result) {
 			return nil
 		}
 		opts := ring.DoBatchOptions{
-			Cleanup:       func() { sched.Obs("cleanup") },
+			Cleanup:       func() { sched.Obs("cleanup"); cleanedUp = true },
 			IsClientError: func(err error) bool { _, ok := err.(clientErr); return ok },
 		}
+		var fifo chan func()
 		if sc.pool {
 			n := 0
-			opts.Go = func(f func()) {
-				n++
-				go f() // a spawner of the caller's own: same semantics, different goroutine creation site
+			switch sc.spawn {
+			case "inline":
+				opts.Go = func(f func()) { f() } // runs every function to its end before it takes the next
+			case "fifo1":
+				fifo = make(chan func(), 16) // one worker, functions in hand-over order
+				opts.Go = func(f func()) { fifo <- f }
+			default:
+				opts.Go = func(f func()) {
+					n++
+					go f() // a spawner of the caller's own: same semantics, different goroutine creation site
+				}
 			}
 		}
 		e.Enable()
+		if fifo != nil {
+			e.Go("worker", func() {
+				for {
+					// the worker goes home once the batch is over (the clean-up is the last function a batch hands over;
+					// a batch that ends before it fans out cleans up by itself)
+					sched.YieldUntil("queue", func() bool { return len(fifo) > 0 || (cleanedUp && callerReturned) })
+					if len(fifo) == 0 {
+						return
+					}
+					f := <-fifo
+					f()
+				}
+			})
+		}
 		e.Go("caller", func() {
 			err := ring.DoBatchWithOptions(ctx, ring.Write, fakeRing{sc}, keys, callback, opts)
 			retErr = err
